@@ -423,6 +423,12 @@ def demoCalls : List (Call Nat) :=
 def demoParse2 (cls : String) (b : Bytes) : POut Nat :=
   if cls = "RawPDU" then .ok (1000 + b.length) else demoParse cls b
 
+/-- `session_end_sticky` / `stop_sniff_interrupts_once` on the demo capture: after `stop_sniff` one `next_packet`
+    reads nothing; after the end of the file nothing comes any more -/
+example : ((Traced.nextPacket demoParse2 ⟨(demoSniffer.cfg .stopSniff).2, []⟩).1 matches .null) = true ∧
+    (Traced.nextPacket demoParse2 ⟨(demoSniffer.cfg .stopSniff).2, []⟩).2.s.handle.frames.length = 5 := by decide
+example : delivered (Traced.run demoParse2 ⟨{ demoSniffer with handle := { demoSniffer.handle with frames := [] } }, []⟩
+    [.nextPacket, .sniffLoop (fun _ _ => ([], .continue_)) 0, .rangeFor (fun _ _ => ([], .stop))]).1 = [] := by decide
 example : dispatches demoSniffer.handle.dlt = true := by decide
 example : ∀ f ∈ demoSniffer.handle.frames, f.data.length = f.caplen ∧
     ∀ raw, throwsOther demoParse2 (modeKind raw 12) f = false := by decide
@@ -519,6 +525,13 @@ theorem packet_stamp_roundtrip (ts : Timestamp) (x : Item) (hsec : ts.seconds < 
   · intro h; exact h.2.2.2.2.2
   · intro h
     refine ⟨hts, ?_, ?_, ?_, ?_, h⟩ <;> simp only [Timestamp.toTimeval] <;> omega
+
+/-- the hypotheses of `writer_session_roundtrip` are met by the calls of the example below -/
+example : ∀ e ∈ ([.packet ⟨1700000000000001⟩ ⟨[1, 2, 3], 3⟩, .range [(⟨5, 6⟩, ⟨[], 0⟩), (⟨7, 8⟩, ⟨[9], 1500⟩)],
+    .moveConstruct, .pdu ⟨2147483647, 999999⟩ ⟨[4], 1⟩] : List WCall).flatMap WCall.written,
+    0 ≤ e.1.sec ∧ e.1.sec < 2147483648 ∧ 0 ≤ e.1.usec ∧ e.1.usec < 2147483648 ∧ e.2.ser.length ≤ writerSnaplen := by
+  decide
+example : (∃ e ∈ dataLinkTypes ++ writerEnum, e.2 = 12) := by decide
 
 example : openFile (WriterSt.run ⟨12, []⟩
     [.packet ⟨1700000000000001⟩ ⟨[1, 2, 3], 3⟩, .range [(⟨5, 6⟩, ⟨[], 0⟩), (⟨7, 8⟩, ⟨[9], 1500⟩)], .moveConstruct,
